@@ -210,3 +210,46 @@ theorem entry_foldl {S G : ℕ} (members : List (List Vec)) (hm : ∀ m ∈ memb
     ring
 
 end PhyModel.Emission
+
+namespace PhyModel.Emission
+
+theorem chooseQ_pos {n x : ℕ} (h : x ≤ n) : 0 < chooseQ n x := by
+  rw [chooseQ_eq h]
+  exact_mod_cast Nat.choose_pos h
+
+theorem binomPmf_pos {n x : ℕ} (h : x ≤ n) {p : ℚ} (h0 : 0 < p) (h1 : p < 1) : 0 < binomPmf n x p := by
+  unfold binomPmf
+  rw [binomLik_eq h]
+  exact mul_pos (chooseQ_pos h) (mul_pos (pow_pos h0 _) (pow_pos (by linarith) _))
+
+theorem betaBinomPmf_pos {n x : ℕ} (h : x ≤ n) {a b : ℚ} (ha : 0 < a) (hb : 0 < b) :
+    0 < betaBinomPmf n x a b := by
+  unfold betaBinomPmf betaBinomLik
+  exact mul_pos (chooseQ_pos h)
+    (div_pos (mul_pos (rising_pos ha _) (rising_pos hb _)) (rising_pos (by linarith) _))
+
+theorem genoLik_pos (d : Density) (hd : ∀ s, d = .betaBinomial s → 0 < s) {n x : ℕ} (h : x ≤ n)
+    {v : ℚ} (h0 : 0 < v) (h1 : v < 1) : 0 < genoLik d n x v := by
+  cases d with
+  | binomial => exact binomPmf_pos h h0 h1
+  | betaBinomial s =>
+    have hs := hd s rfl
+    apply betaBinomPmf_pos h (mul_pos h0 hs)
+    have : s - v * s = (1 - v) * s := by ring
+    rw [this]
+    exact mul_pos (by linarith) hs
+
+theorem lsum_pos {α} (L : List α) (hL : L ≠ []) (F : α → ℚ) (hF : ∀ a ∈ L, 0 < F a) : 0 < lsum L F := by
+  induction L with
+  | nil => exact absurd rfl hL
+  | cons a L ih =>
+    rw [lsum_cons]
+    by_cases hnil : L = []
+    · subst hnil
+      rw [lsum_nil, add_zero]
+      exact hF a List.mem_cons_self
+    · have := ih hnil (fun b hb => hF b (List.mem_cons_of_mem _ hb))
+      have := hF a List.mem_cons_self
+      linarith
+
+end PhyModel.Emission
